@@ -32,7 +32,7 @@ LEVEL = ("Generated-input exploration: every enumerated public constructor / fit
          "on the last data (attributes AND behaviour: transform / predict / score outputs of the refitted vs the fresh estimator, with estimator-valued "
          "arguments shared across the history); query methods are read-only (fitted state byte-identical before/after, repeated queries equal); "
          "repeated calls must agree. No absence claim: strength = the counted distinct executed (entry, layout, data) cases.")
-BUDGET = {"quick": 260, "thorough": 4000}
+BUDGET = {"quick": 260, "thorough": 12000}
 WATCHDOG = {"quick": 60, "thorough": 120}
 RULE = ("Three generated case families: 'purity' = (entry point from the table of %d, data seed, one memory layout per array argument, "
         "float64 / float32 / int dtype of the main matrix); 'refit' = (estimator from the table of %d, history of 2..3 fits on drawn data "
